@@ -16,8 +16,6 @@
      src/read/loclists.rs  RawLocListEntry::parse (Bare and Lle), parse_data + RawLocListIter::next (iterated)
      src/read/aranges.rs   ArangeHeader::parse, ArangeEntry::parse + ArangeEntryIter::next_raw (iterated)
      src/read/lookup.rs    PubStuffParser::parse_header / parse_entry + LookupEntryIter::next (iterated)
-     src/read/cfi.rs       FrameDescriptionEntry::parse_addresses, parse_encoded_pointer (section base 0),
-                           parse_encoded_value
 
    `run_plain_tr` is the plain interpreter instrumented with the ghost trace of what it read how; run on the
    section with the relocations already applied it gives the static field map (`field_sites`) of the parser
@@ -590,37 +588,4 @@ Fixpoint p_pubnames (fuel sfuel : nat) (acc : list N) : prog (list N) :=
                PWord fmt (fun unit_length =>
                p_pub_entries sfuel sfuel fmt unit_offset acc))))
             (fun acc' => p_pubnames f sfuel acc')))
-  end.
-
-(* ------------------------------------------------------------------------------------------------ *)
-(*                                       src/read/cfi.rs                                            *)
-(* ------------------------------------------------------------------------------------------------ *)
-
-(* parse_encoded_value: only DW_EH_PE_absptr goes through read_address *)
-Definition p_encoded_value {A} (fmt asz : N) (k : N -> prog A) : prog A :=
-  if fmt =? 0 then PAddr asz k
-  else if fmt =? 1 then PUleb k
-  else if fmt =? 2 then PU 2 k
-  else if fmt =? 3 then PU 4 k
-  else if fmt =? 4 then PU 8 k
-  else if fmt =? 9 then PSleb (fun z => k (of_i64 z))
-  else if fmt =? 10 then PU 2 (fun v => k (of_i64 (to_signed 16 v)))
-  else if fmt =? 11 then PU 4 (fun v => k (of_i64 (to_signed 32 v)))
-  else if fmt =? 12 then PU 8 k
-  else PFail EUnknownPointerEncoding.
-
-(* FrameDescriptionEntry::parse_addresses for a CIE with address size asz and FDE pointer encoding `enc`
-   (None: .debug_frame, or no 'R' augmentation).  Encoded pointers: application absptr (0x00) or pcrel (0x10) with
-   section base 0 (pc = offset of the field in the section); other applications need bases the harness does not
-   set and are errors.  Result [initial_address; address_range]. *)
-Definition p_fde_addresses (asz : N) (enc : option N) : prog (list N) :=
-  match enc with
-  | None => PAddr asz (fun a => PAddr asz (fun r => PRet [a; r]))
-  | Some e =>
-      let fmt := N.land e 15 in
-      let app := N.land e 112 in
-      if app =? 0 then
-        p_encoded_value fmt asz (fun a => p_encoded_value fmt asz (fun r =>
-          PRet [wrapping_add_sized 0 a asz; r]))
-      else PFail EUnsupportedPointerEncoding
   end.
